@@ -207,7 +207,7 @@ func ruleSFlag(c *Ctx) {
 		st := storeStrings(fn, env)
 		u, nu := findCall(cs, "invoke:UnlockingScript")
 		ins, ni := findCall(cs, "InsertInputUnlockingScript")
-		okDefault := hasString(st, fmt.Sprintf("&alloc#0.SigHashFlags := %d", allForkID))
+		okDefault := hasString(st, fmt.Sprintf("&alloc#0.SigHashFlags := %d", allForkID)) && storeGuardedBy(fn, env, "&alloc#0.SigHashFlags", "(alloc#0.SigHashFlags == 0)")
 		ok := nu == 1 && ni == 1 && okDefault && u.args[0] == "p1" && u.args[1] == "p0" && u.args[2] == "*alloc#0" &&
 			ins.args[0] == "p0" && ins.args[1] == "alloc#0.InputIdx" && strings.HasSuffix(ins.args[2], "#0") && strings.Contains(ins.args[2], "invoke:UnlockingScript")
 		c.Check(ok, "S-fill", "Tx.FillInput", fn.Pos(), "defaults the hash type to ALL|FORKID, asks the unlocker with the caller's tx and params, installs its script at params.InputIdx",
@@ -414,4 +414,28 @@ func ruleTShf(c *Ctx) {
 		c.Check(got == h.want, "T-shf", "Flag."+h.name, fn.Pos(), h.name+" = "+h.want, fmt.Sprintf("sighash.Flag.%s computes %s, expected %s", h.name, got, h.want))
 	}
 	_ = constant.MakeInt64
+}
+
+// storeGuardedBy: every store to the address (by its canonical term) sits under the given condition taken true.
+func storeGuardedBy(fn *ssa.Function, env *TermEnv, addr, cond string) bool {
+	n := 0
+	for _, b := range fn.Blocks {
+		for _, ins := range b.Instrs {
+			s, ok := ins.(*ssa.Store)
+			if !ok || canonTerm(env.Term(s.Addr)) != addr {
+				continue
+			}
+			n++
+			guarded := false
+			for _, dc := range dominatingConds(b) {
+				if dc.truth && canonTerm(env.Term(dc.cond)) == cond {
+					guarded = true
+				}
+			}
+			if !guarded {
+				return false
+			}
+		}
+	}
+	return n > 0
 }
